@@ -179,6 +179,26 @@ def _contains(container: Any, item: Any) -> bool:
         return any(x is item for x in container)
 
 
+_PURE_BUILTIN_VALUES = {"builtins.sum", "builtins.len", "builtins.abs", "builtins.min", "builtins.max", "builtins.sorted", "builtins.tuple", "builtins.frozenset"}
+
+
+class _PureBuiltin(Abstract):
+    """a pure builtin function over plain (non-abstract) values, used as a value"""
+
+    def __init__(self, name: str):
+        self.name = name
+        self.__dict__["__name__"] = name
+
+    def __call__(self, *args: Any) -> Any:
+        for a in args:
+            if isinstance(a, Abstract):
+                raise Unfoldable("%s of an abstract value" % self.name)
+        return getattr(__import__("builtins"), self.name)(*args)
+
+
+_DUNDER = {ast.Add: "add", ast.Sub: "sub", ast.Mult: "mul", ast.Mod: "mod", ast.BitOr: "or", ast.BitAnd: "and", ast.BitXor: "xor", ast.FloorDiv: "floordiv", ast.Div: "truediv", ast.Pow: "pow", ast.LShift: "lshift", ast.RShift: "rshift"}
+
+
 class Folder:
     def __init__(
         self,
@@ -284,6 +304,20 @@ class Folder:
             raise Unfoldable(unparse(e))
         if isinstance(e, ast.BinOp):
             l, r = self.fold(e.left), self.fold(e.right)
+            if type(l).__name__ == "AObj" or type(r).__name__ == "AObj":
+                # an instance of a repository class: its own operator method decides (left first, then the reflected one)
+                dn = _DUNDER.get(type(e.op))
+                if dn is not None:
+                    from .absint import _BoundMethod
+
+                    for obj_, other_, nm_ in ((l, r, "__%s__" % dn), (r, l, "__r%s__" % dn)):
+                        if type(obj_).__name__ == "AObj" and obj_._record() is None:
+                            m_ = obj_._ctx_.repo.lookup_method(obj_._cls_, nm_)
+                            if m_ is not None:
+                                res_ = _BoundMethod(obj_, m_).call(self, [other_], {})
+                                if res_ is not NotImplemented:
+                                    return res_
+                    raise Unfoldable("no operator method for %s" % unparse(e)[:60])
             if isinstance(e.op, ast.Div):
                 if isinstance(l, Abstract) or isinstance(r, Abstract):
                     return l / r  # e.g. path / name
@@ -410,6 +444,20 @@ class Folder:
                 vals.append(self.fold(a))
         if e.keywords:
             raise Unfoldable(unparse(e))
+        name = dotted(e.func)
+        if name is not None and self.repo is not None and self.mod is not None and name.split(".")[0] not in self.env:
+            try:
+                r0 = self.repo.resolve_expr(self.mod, e.func, self.cls)
+            except Exception:
+                r0 = None
+            if isinstance(r0, External) and r0.dotted.split(".")[0] in ("itertools",):
+                name = r0.dotted
+        if name in ("max", "min"):
+            return (max if name == "max" else min)(*vals)
+        if name in ("itertools.product", "itertools.chain"):
+            import itertools
+
+            return list(getattr(itertools, name.split(".")[1])(*[list(v) for v in vals]))
         if isinstance(e.func, ast.Attribute):
             recv = self.fold(e.func.value)
             m = e.func.attr
@@ -417,13 +465,6 @@ class Folder:
                 return getattr(recv, m)(*vals)
             if isinstance(recv, (set, frozenset)) and m in ("union", "intersection"):
                 return getattr(frozenset(recv), m)(*[frozenset(v) for v in vals])
-        name = dotted(e.func)
-        if name in ("max", "min"):
-            return (max if name == "max" else min)(*vals)
-        if name in ("itertools.product",):
-            import itertools
-
-            return list(itertools.product(*[list(v) for v in vals]))
         raise Unfoldable(unparse(e))
 
     def _bind_target(self, t: ast.AST, v: Any, env: Dict[str, Any]) -> None:
@@ -508,6 +549,8 @@ class Folder:
                 return string.ascii_letters
             if r.dotted == "string.digits":
                 return "0123456789"
+            if r.dotted in _PURE_BUILTIN_VALUES:
+                return _PureBuiltin(r.dotted.split(".")[1])  # a pure builtin as a first-class value (map(sum, ...), key=len)
         raise Unfoldable("cannot resolve %s" % unparse(e))
 
     def _owner_module(self, e: ast.expr) -> Module:
@@ -812,8 +855,8 @@ class Folder:
             if isinstance(f, (_Lambda, _LocalFn)):
                 res = [f.call(self, [v]) for v in vals]
                 return res if name == "map" else [v for v, k in zip(vals, res) if k]
-            if callable(f) and isinstance(f, Abstract):
-                res = [call_value(self, f, [v]) for v in vals]  # a rule-modelled callable
+            if (callable(f) and isinstance(f, Abstract)) or isinstance(f, _Partial) or type(f).__name__ == "_BoundMethod":
+                res = [call_value(self, f, [v]) for v in vals]  # a rule-modelled callable / a bound method of an abstract instance
                 return res if name == "map" else [v for v, k in zip(vals, res) if k]
             raise Unfoldable(unparse(e))
         if name in ("functools.reduce", "reduce") and len(args) in (2, 3):
@@ -861,9 +904,10 @@ class Folder:
             import itertools as _it
 
             kw = {k.arg: self.fold(k.value) for k in e.keywords if k.arg}
-            vals = [list(self.fold(a)) if name != "itertools.combinations" or i == 0 else self.fold(a) for i, a in enumerate(args)]
             if name in ("itertools.combinations", "itertools.permutations", "itertools.combinations_with_replacement"):
                 vals = [list(self.fold(args[0]))] + [self.fold(a) for a in args[1:]]
+            else:
+                vals = [list(self.fold(a)) for a in args]
             out_ = list(getattr(_it, name.split(".")[1])(*vals, **kw))
             if len(out_) > 200000:
                 raise Unfoldable("enumeration too large")
